@@ -157,6 +157,13 @@ func c14Symbols(c *Ctx) []*c14Sym {
 			sb.WriteString(bitsStr(r))
 		}
 		s.bits = sb.String()
+		// The Data Matrix / 1-D module matrix is itself a rendering (0x0, margin 0), as the property prescribes.
+		// Make sure it is a complete symbol: the fixed structure every symbol of the symbology has.
+		if why := c14RefSane(s); why != "" {
+			c.Oracle("c14-"+kind, false, kind+"-reference-symbol",
+				fmt.Sprintf("writer=%s contents=%q hints=[%s] width=0 height=0 margin=0", name, contents, hs),
+				"the 0x0 margin-0 rendering is not a complete symbol: "+why)
+		}
 		syms = append(syms, s)
 	}
 	qw := qrcode.NewQRCodeWriter()
@@ -192,6 +199,47 @@ func c14Symbols(c *Ctx) []*c14Sym {
 	return syms
 }
 
+// c14RefSane checks the structure that every symbol of the symbology has (finder border / guard bars / width).
+func c14RefSane(s *c14Sym) string {
+	switch s.kind {
+	case "dm":
+		if s.mw%2 != 0 || s.mh%2 != 0 || s.mw < 8 || s.mh < 8 {
+			return fmt.Sprintf("size %dx%d", s.mw, s.mh)
+		}
+		for x := 0; x < s.mw; x++ {
+			if !s.mod[s.mh-1][x] {
+				return fmt.Sprintf("bottom finder row white at x=%d", x)
+			}
+			if s.mod[0][x] != (x%2 == 0) {
+				return fmt.Sprintf("top timing row wrong at x=%d", x)
+			}
+		}
+		for y := 0; y < s.mh; y++ {
+			if !s.mod[y][0] {
+				return fmt.Sprintf("left finder column white at y=%d", y)
+			}
+			if s.mod[y][s.mw-1] != (y%2 == 1) {
+				return fmt.Sprintf("right timing column wrong at y=%d", y)
+			}
+		}
+	case "1d":
+		if s.mh != 1 {
+			return fmt.Sprintf("height %d", s.mh)
+		}
+		if !s.mod[0][0] || !s.mod[0][s.mw-1] {
+			return "first or last module is white"
+		}
+		want := map[string]int{"EAN_13": 95, "UPC_A": 95, "EAN_8": 67, "UPC_E": 51}
+		if n, ok := want[s.name]; ok && s.mw != n {
+			return fmt.Sprintf("width %d, the symbology has %d modules", s.mw, n)
+		}
+		if s.name == "ITF" && s.mw != 9+9*len(s.contents) {
+			return fmt.Sprintf("width %d, ITF has %d modules", s.mw, 9+9*len(s.contents))
+		}
+	}
+	return ""
+}
+
 type c14Case struct {
 	s          *c14Sym
 	reqW, reqH int
@@ -200,7 +248,13 @@ type c14Case struct {
 }
 
 func (k c14Case) input() string {
-	return fmt.Sprintf("writer=%s contents=%q hints=[%s] width=%d height=%d margin=%d string=%v", k.s.name, k.s.contents, k.s.hintStr, k.reqW, k.reqH, k.margin, k.asString)
+	mg := fmt.Sprint(k.margin)
+	if k.margin < 0 {
+		mg = "default(no MARGIN hint)"
+	} else if k.asString {
+		mg = fmt.Sprintf("%q", mg)
+	}
+	return fmt.Sprintf("writer=%s contents=%q hints=[%s] width=%d height=%d margin=%s", k.s.name, k.s.contents, k.s.hintStr, k.reqW, k.reqH, mg)
 }
 
 func c14Max(a, b int) int {
